@@ -176,12 +176,14 @@ fn int96_to_micros_def() {
     int96_to_unit(1_000, 1)
 }
 // (64-bit signed division by the constant 10^6: pure SAT hardness, 40 MB; not confirmed under load)
+// NOT CONFIRMED: 64-bit division by a constant: > 600 s, 50 MB, pure SAT hardness
 // @unit name=int96_to_millis_def props=C05 kind=complete fns=Int96::to_millis tier=thorough timeout=900 mem=2
 #[kani::proof]
 fn int96_to_millis_def() {
     int96_to_unit(1_000_000, 2)
 }
 // (64-bit signed division by the constant 10^9: pure SAT hardness, 40 MB; not confirmed under load)
+// NOT CONFIRMED: 64-bit division by a constant: > 600 s, 50 MB, pure SAT hardness
 // @unit name=int96_to_seconds_def props=C05 kind=complete fns=Int96::to_seconds tier=thorough timeout=900 mem=2
 #[kani::proof]
 fn int96_to_seconds_def() {
